@@ -407,7 +407,13 @@ func quoteAll(xs []string) string {
 	return strings.Join(q, ", ")
 }
 
-func title(s string) string { return strings.ToUpper(s[:1]) + s[1:] }
+// title: Lean module name of a package path (last path element, capitalised): "https/jose" -> "Jose".
+func title(s string) string {
+	if i := strings.LastIndex(s, "/"); i >= 0 {
+		s = s[i+1:]
+	}
+	return strings.ToUpper(s[:1]) + s[1:]
+}
 
 func genPkg(rel, out string) (res struct {
 	log  string
@@ -464,7 +470,7 @@ func main() {
 	}
 	os.Chdir(repo)
 	os.MkdirAll(*out, 0o755)
-	pkgs := []string{"amf0", "rtmp", "flv", "aac", "avc", "websocket", "json", "kxps", "logger", "http"}
+	pkgs := []string{"amf0", "rtmp", "flv", "aac", "avc", "websocket", "json", "kxps", "logger", "http", "https/jose", "errors"}
 	failed := false
 	type result struct {
 		log  string
